@@ -116,10 +116,34 @@ func runC06(c *engine.Ctx) {
 	envBefore := deepDump.Sdump(signEnv)
 	treeBefore := blankedDump(pl.Steps)
 
+	// options are applied in order, a later WithEnv REPLACES an earlier one: sometimes an earlier, different
+	// env is passed first; it must neither be signed nor be written to
+	sopts := []signature.Option{signature.WithEnv(signEnv)}
+	var earlier map[string]string
+	earlierBefore := ""
+	if p.Draw(4, "cfg:two-withenv") == 3 {
+		earlier = map[string]string{"EARLIER_ONLY": "1"}
+		if p.Draw(2, "cfg:earlier-empty") == 1 {
+			earlier = map[string]string{}
+		}
+		for n := range signEnv {
+			if p.Draw(2, "cfg:earlier-overlap") == 1 {
+				earlier[n] = "earlier-" + n
+			}
+		}
+		earlierBefore = deepDump.Sdump(earlier)
+		sopts = []signature.Option{signature.WithEnv(earlier), signature.WithEnv(signEnv)}
+		c.Probe("two_withenv_options")
+	}
 	var err error
 	c.Guard("C06.panic", "SignSteps", func() {
-		err = signature.SignSteps(context.Background(), pl.Steps, kp.priv, repoURL, signature.WithEnv(signEnv))
+		err = signature.SignSteps(context.Background(), pl.Steps, kp.priv, repoURL, sopts...)
 	})
+	if earlier != nil {
+		if after := deepDump.Sdump(earlier); after != earlierBefore {
+			c.Fail("C06.mutated-env", "earlier WithEnv map", "SignSteps modified the map of an earlier WithEnv option:\n%s", firstDiffLine(earlierBefore, after))
+		}
+	}
 	faultFired := false
 	if kp.signer != nil {
 		faultFired = failAt != 0 && *kp.signer.calls >= failAt
